@@ -22,19 +22,22 @@ fn atom(b: &[u8]) -> Vec<u8> {
 fn cond(items: &[Vec<u8>]) -> Vec<u8> { let mut v = vec![0xff]; for (i, it) in items.iter().enumerate() { if i > 0 { v.push(0xff); } v.extend(atom(it)); } v.push(0x80); v }
 fn list(conds: &[Vec<u8>]) -> Vec<u8> { let mut v = vec![]; for c in conds { v.push(0xff); v.extend_from_slice(c); } v.push(0x80); v }
 
-/// one spend of the identity puzzle with the given condition list; returns (accepted, flags, fingerprint)
-fn run(conds: &[Vec<u8>]) -> Result<(u32, [u8; 32]), String> {
+/// spends of the identity puzzle (coin i: parent [i+1; 32], amount 1000) with the given condition lists; per spend (flags, fingerprint)
+fn run_many(spends: &[Vec<Vec<u8>>]) -> Result<Vec<(u32, [u8; 32])>, String> {
     let puzzle = [1u8];
     let ph = clvm_utils::tree_hash_atom(&puzzle).to_bytes();
-    let cs = CoinSpend::new(Coin::new([1; 32].into(), ph.into(), 1000), Program::new(puzzle.as_slice().into()), list(conds).into());
-    let b = SpendBundle::new(vec![cs], Signature::default());
+    let css: Vec<CoinSpend> = spends.iter().enumerate().map(|(i, conds)|
+        CoinSpend::new(Coin::new([i as u8 + 1; 32].into(), ph.into(), 1000), Program::new(puzzle.as_slice().into()), list(conds).into())).collect();
+    let ids: Vec<[u8; 32]> = css.iter().map(|c| c.coin.coin_id().into()).collect();
+    let b = SpendBundle::new(css, Signature::default());
     let mut a = make_allocator(ConsensusFlags::LIMIT_HEAP);
     let flags = MEMPOOL_MODE | ConsensusFlags::DONT_VALIDATE_SIGNATURE | ConsensusFlags::COMPUTE_FINGERPRINT;
     match run_spendbundle(&mut a, &b, TEST_CONSTANTS.max_block_cost_clvm, flags, &TEST_CONSTANTS) {
-        Ok((c, _)) => Ok((c.spends[0].flags, c.spends[0].fingerprint)),
+        Ok((c, _)) => Ok(ids.iter().map(|id| { let s = c.spends.iter().find(|s| s.coin_id.as_ref().as_ref() == &id[..]).expect("spend"); (s.flags, s.fingerprint) }).collect()),
         Err(e) => Err(format!("{e:?}")),
     }
 }
+fn run(conds: &[Vec<u8>]) -> Result<(u32, [u8; 32]), String> { run_many(&[conds.to_vec()]).map(|v| v[0]) }
 
 pub fn cases() -> Vec<(String, Vec<Vec<u8>>, Option<bool>)> {
     // (name, condition list, Some(expected dedup flag) / None = only the "only if" direction is demanded)
@@ -51,23 +54,6 @@ pub fn cases() -> Vec<(String, Vec<Vec<u8>>, Option<bool>)> {
         v.push((format!("agg-sig-{op}"), vec![full.clone(), cond(&[vec![op], pk.clone(), b"hello".to_vec()])], Some(false)));
         v.push((format!("agg-sig-{op}-first"), vec![cond(&[vec![op], pk.clone(), b"hello".to_vec()]), full.clone()], Some(false)));
     }
-    // messages: every sender / receiver mode (3 bits each); the coin talks to itself so that the bundle balances
-    for mode in 0u8..64 {
-        let src = mode >> 3; let dst = mode & 7;
-        if src == 0 || dst == 0 { continue; } // a side that commits to nothing is refused in mempool mode
-        let coin_id = Coin::new([1; 32].into(), <[u8; 32]>::try_from(ph.as_slice()).unwrap().into(), 1000).coin_id().to_vec();
-        let commit = |m: u8| -> Vec<Vec<u8>> {
-            if m == 7 { return vec![coin_id.clone()]; } // all three: the coin id stands for them
-            let mut args = vec![];
-            if m & 4 != 0 { args.push(vec![1u8; 32]); }
-            if m & 2 != 0 { args.push(ph.clone()); }
-            if m & 1 != 0 { args.push(vec![0x03, 0xe8]); }
-            args
-        };
-        let mut send = vec![vec![66u8], vec![mode], b"hi".to_vec()]; send.extend(commit(dst));
-        let mut recv = vec![vec![67u8], vec![mode], b"hi".to_vec()]; recv.extend(commit(src));
-        v.push((format!("message-pair-mode-{mode}"), vec![full.clone(), cond(&send), cond(&recv)], Some(false)));
-    }
     // conditions that leave the flag alone
     for (nm, c) in [("reserve-fee", cond(&[vec![52], vec![]])), ("create-coin-announcement", cond(&[vec![60], b"x".to_vec()])),
                     ("create-puzzle-announcement", cond(&[vec![62], b"x".to_vec()])), ("assert-my-coin-id", cond(&[vec![70], {
@@ -77,6 +63,30 @@ pub fn cases() -> Vec<(String, Vec<Vec<u8>>, Option<bool>)> {
                     ("assert-before-seconds-absolute", cond(&[vec![85], vec![0x7f, 0xff, 0xff, 0xff]])), ("remark", cond(&[vec![1]]))] {
         v.push((format!("plain-with-{nm}"), vec![full.clone(), c.clone()], Some(true)));
         v.push((format!("excess-with-{nm}"), vec![short.clone(), c], Some(false)));
+    }
+    v
+}
+
+/// messages between two coins, every sender / receiver mode: neither the sender nor the receiver stays dedup-eligible
+fn message_cases() -> Vec<(String, Vec<Vec<Vec<u8>>>)> {
+    let ph = clvm_utils::tree_hash_atom(&[1u8]).to_bytes();
+    let full = cond(&[vec![51], vec![9u8; 32], vec![0x03, 0xe8]]);
+    let mut v = vec![];
+    for mode in 0u8..64 {
+        let src = mode >> 3; let dst = mode & 7;
+        if src == 0 || dst == 0 { continue; } // a side that commits to nothing is refused in mempool mode
+        // coin 0 (parent [1; 32]) sends, coin 1 (parent [2; 32]) receives
+        let commit = |m: u8, parent: u8| -> Vec<Vec<u8>> {
+            if m == 7 { return vec![Coin::new([parent; 32].into(), ph.into(), 1000).coin_id().to_vec()]; }
+            let mut args = vec![];
+            if m & 4 != 0 { args.push(vec![parent; 32]); }
+            if m & 2 != 0 { args.push(ph.to_vec()); }
+            if m & 1 != 0 { args.push(vec![0x03, 0xe8]); }
+            args
+        };
+        let mut send = vec![vec![66u8], vec![mode], b"hi".to_vec()]; send.extend(commit(dst, 2));
+        let mut recv = vec![vec![67u8], vec![mode], b"hi".to_vec()]; recv.extend(commit(src, 1));
+        v.push((format!("message-mode-{mode}"), vec![vec![full.clone(), cond(&send)], vec![full.clone(), cond(&recv)]]));
     }
     v
 }
@@ -106,6 +116,17 @@ pub fn dedup_ground() -> EvalResult {
                     fail(&mut res, format!("{name}/flag"), format!("case {name}: dedup flag = {dedup}, the rules say {}", want.unwrap()));
                 } else { res.discharged += 1; }
                 if dedup { eligible.push((name.clone(), conds.clone(), fp)); }
+            }
+        }
+    }
+    for (name, spends) in message_cases() {
+        res.obligations += 1;
+        match run_many(&spends) {
+            Err(e) => fail(&mut res, format!("{name}/accepted"), format!("case {name}: the bundle is rejected ({e}); every case is a valid bundle")),
+            Ok(per) => {
+                let s = per[0].0 & ELIGIBLE_FOR_DEDUP != 0; let r = per[1].0 & ELIGIBLE_FOR_DEDUP != 0;
+                if s || r { fail(&mut res, format!("{name}/only-if"), format!("case {name}: dedup-eligible sender = {s}, receiver = {r}; a spend that emits a message condition is never dedup-eligible")); }
+                else { res.discharged += 1; }
             }
         }
     }
